@@ -261,6 +261,18 @@ func (mc *machine) invariants(step int, op Op) error {
 					err = fmt.Errorf("after step %d (%s): Range visited field %s although Has is false", step, opString(op), fd.Name())
 					return
 				}
+				if !has && fd.IsList() {
+					if l := m.Get(fd).List(); l.IsValid() || l.Len() != 0 {
+						err = fmt.Errorf("after step %d (%s): Get of the unpopulated list %s returns a valid (writable) list", step, opString(op), fd.Name())
+						return
+					}
+				}
+				if !has && fd.IsMap() {
+					if mp := m.Get(fd).Map(); mp.IsValid() || mp.Len() != 0 {
+						err = fmt.Errorf("after step %d (%s): Get of the unpopulated map %s returns a valid (writable) map", step, opString(op), fd.Name())
+						return
+					}
+				}
 			}
 			ods := m.Descriptor().Oneofs()
 			for i := 0; i < ods.Len(); i++ {
@@ -565,6 +577,31 @@ func (mc *machine) apply(step int, op Op) error {
 				sort.Strings(parts)
 				return strings.Join(parts, " ")
 			}))
+		case "rangemut":
+			// inside Range the current field may be mutated: append to / truncate
+			// the list view the callback received
+			if fd == nil || !fd.IsList() || fd.Message() != nil {
+				return nil
+			}
+			mc.invalidateField(op.H, fd)
+			mc.mutated = true
+			v := model.DecodeScalar(fd, unhex(op.V))
+			return mc.judge(what, tri(func(s int) string {
+				seen := 0
+				h.m[s].Range(func(rfd protoreflect.FieldDescriptor, rv protoreflect.Value) bool {
+					if rfd.Number() != fd.Number() {
+						return true
+					}
+					seen++
+					if op.I == 0 {
+						rv.List().Append(v)
+					} else {
+						rv.List().Truncate(rv.List().Len() - 1)
+					}
+					return false
+				})
+				return fmt.Sprint(seen)
+			}))
 		case "rangestop":
 			// Range must stop when f returns false
 			return mc.judge(what, tri(func(s int) string {
@@ -580,6 +617,18 @@ func (mc *machine) apply(step int, op Op) error {
 			return mc.judge(what, tri(func(s int) string {
 				h.m[s].SetUnknown(append(protoreflect.RawFields(nil), u...))
 				return ""
+			}))
+		case "swapunknown":
+			// take the unknown set, replace it, store the taken slice back
+			mc.mutated = true
+			u := unhex(op.V)
+			return mc.judge(what, tri(func(s int) string {
+				saved := h.m[s].GetUnknown()
+				before := hexs(saved)
+				h.m[s].SetUnknown(append(protoreflect.RawFields(nil), u...))
+				mid := hexs(h.m[s].GetUnknown())
+				h.m[s].SetUnknown(saved)
+				return before + ">" + mid + ">" + hexs(h.m[s].GetUnknown())
 			}))
 		case "isvalid":
 			return mc.judge(what, tri(func(s int) string { return fmt.Sprint(h.m[s].IsValid()) }))
@@ -859,10 +908,13 @@ func (mc *machine) drawOp(rt *rapid.T) Op {
 				choices = []string{"mutscalar", "foreign"}
 			}
 		} else if h.mutable {
-			choices = append(choices, "clear", "clear", "setunknown")
+			choices = append(choices, "clear", "clear", "setunknown", "swapunknown")
 			switch {
 			case fd.IsList():
 				choices = append(choices, "mutable", "mutable", "mutable")
+				if fd.Message() == nil {
+					choices = append(choices, "rangemut")
+				}
 				if fd.Message() == nil {
 					choices = append(choices, "setlist")
 				}
@@ -881,6 +933,9 @@ func (mc *machine) drawOp(rt *rapid.T) Op {
 		switch op.Op {
 		case "set":
 			op.V = hexs(model.DrawScalarPayload(rt, fd))
+		case "rangemut":
+			op.V = hexs(model.DrawScalarPayload(rt, fd))
+			op.I = rapid.IntRange(0, 1).Draw(rt, "appendOrTruncate")
 		case "setmsg":
 			op.V = drawMsgBytes(rt, mc.ctx, fd.Message())
 		case "setlist":
@@ -899,7 +954,7 @@ func (mc *machine) drawOp(rt *rapid.T) Op {
 			op.V = strings.Join(parts, ",")
 		case "which":
 			op.I = rapid.IntRange(0, h.md.Oneofs().Len()-1).Draw(rt, "oneof")
-		case "setunknown":
+		case "setunknown", "swapunknown":
 			cfg := mc.ctx.streamCfg(true, false)
 			var u []byte
 			for i, k := 0, rapid.IntRange(0, 2).Draw(rt, "nunk"); i < k; i++ {
